@@ -5,7 +5,7 @@ Import ListNotations.
 Open Scope Z_scope.
 
 Definition is_sub (i : instr) : bool :=
-  match i with ICall _ | ICreate => true | _ => false end.
+  match i with ICall _ | ICreate | ICreate2 => true | _ => false end.
 
 Lemma sload_sstore_other : forall m a b k0 v0 k, a <> b ->
   sload_of (sstore_of m b k0 v0) a k = sload_of m a k.
